@@ -9,7 +9,9 @@ import HalmosVerif.Gen.HashTables256
 namespace HalmosVerif.Props.C08
 open HalmosVerif.Lemmas.KeccakTables HalmosVerif.Gen.HashTables
 
-theorem keccak256_256_2_ok : keccak256_256_2.all h256Ok = true := by decide +kernel
-theorem keccak256_256_3_ok : keccak256_256_3.all h256Ok = true := by decide +kernel
+theorem keccak256_256_2_ok : keccak256_256_2.all h256Ok = true :=
+  all_quarters 16 (by decide +kernel) (by decide +kernel) (by decide +kernel) (by decide +kernel)
+theorem keccak256_256_3_ok : keccak256_256_3.all h256Ok = true :=
+  all_quarters 16 (by decide +kernel) (by decide +kernel) (by decide +kernel) (by decide +kernel)
 
 end HalmosVerif.Props.C08
